@@ -38,7 +38,8 @@ GET_BEHAVIOURS = ["cl", "chunked", "close-delimited", "cl-conn-close", "204", "3
                   "204+stray-same-seg", "204+stray-later-seg", "eof-in-headers", "eof-in-body",
                   "cl-then-silent-close", "cl-then-unsolicited", "chunked-then-unsolicited", "304+stray-same-seg",
                   "stall-in-body-rest-late", "stall-before-status-reply-late", "cl-2-now-rest-late", "chunked-1-now-rest-late",
-                  "chunked-bad-size-rest-late", "cl-head-now-body-late", "205-head-now-body-late"]
+                  "chunked-bad-size-rest-late", "cl-head-now-body-late", "205-head-now-body-late",
+                  "intr-in-body-rest-late"]
 POST_BEHAVIOURS = ["cl", "eof-in-headers", "cl-then-unsolicited", "cl-then-silent-close", "204+stray-same-seg",
                    "stall-before-status-reply-late"]
 HEAD_BEHAVIOURS = ["head-cl", "head-cl+body-sent", "head-cl-conn-close", "head-chunked"]
@@ -116,6 +117,12 @@ def reply(behaviour, i):
         # whatever reads the broken size line, the connection must never carry another request.
         head = b"HTTP/1.1 200 OK\r\nTransfer-Encoding: chunked\r\n\r\n2\r\n" + p[:2] + b"\r\nupstream died\r\n"
         return head, [("LATE", evil(i))]
+    if behaviour == "intr-in-body-rest-late":
+        # an interrupt (KeyboardInterrupt, a signal-driven deadline) lands while the body is being received; the rest of
+        # the body is still in flight and looks like a response
+        full = response(200, p + evil(i))
+        k = len(full) - len(evil(i))
+        return full[:k], [KeyboardInterrupt("injected while reading the body"), ("LATE", full[k:])]
     if behaviour == "stall-before-status-reply-late":
         return b"", [STALL, ("LATE", response(200, p))]
     if behaviour == "head-cl":
@@ -199,6 +206,12 @@ def execute(cfg, steps, acc=None, trace=None):
             if trace is not None:
                 trace.append((i, phase, "HTTPError", type(e).__name__))
             return None
+        except KeyboardInterrupt as e:
+            if "injected" not in str(e):
+                raise
+            if trace is not None:
+                trace.append((i, phase, "interrupt", "KeyboardInterrupt"))
+            return None
         except SimStall as e:
             raise HarnessError("SimStall in %s: %s (%r %r)" % (phase, e, cfg, steps))
         except Exception as e:  # noqa: BLE001
@@ -267,7 +280,7 @@ def execute(cfg, steps, acc=None, trace=None):
     for i, data in got.items():
         method = steps[i][0]
         want = b"" if method == "HEAD" else payload(i)
-        if steps[i][1] == "stall-in-body-rest-late":
+        if steps[i][1] in ("stall-in-body-rest-late", "intr-in-body-rest-late"):
             want = payload(i) + evil(i)
         if steps[i][1] in ("cl-2-now-rest-late", "chunked-1-now-rest-late"):
             want = payload(i)[:2] + evil(i)
